@@ -1326,4 +1326,303 @@ theorem good_ifFalseElseStmt (F : FloatOps) (B : List String) (pos bp p : Pos) (
       obtain ⟨rfl, rfl⟩ := hce
       exact ⟨rfl, f + 1, envX, hb⟩
 
+/-! ### `var` groups: a list of specifications, each one name with or without a value -/
+
+theorem specF_inv {B : List String} {sp : Spec} (h : specF B sp = true) :
+    (∃ iota ipos x e, sp = (iota, [(ipos, x)], [some e]) ∧ ExprF (bnd B) e = true ∧ x ≠ "_") ∨
+    (∃ iota ipos x, sp = (iota, [(ipos, x)], []) ∧ x ≠ "_") := by
+  unfold specF at h
+  split at h
+  · simp only [Bool.and_eq_true] at h
+    exact .inl ⟨_, _, _, _, rfl, h.1, by simpa using h.2⟩
+  · exact .inr ⟨_, _, _, rfl, by simpa using h⟩
+  · cases h
+
+theorem compileValueSpecs_nil (pos : Pos) (tok : Nat) (last : Option (Compile.CM Unit × Compile.VSum)) :
+    Compile.compileValueSpecs pos tok [] last = pure () := by
+  unfold Compile.compileValueSpecs; rfl
+
+theorem compileValueSpecs_var1 (pos : Pos) (iota : Option Nat) (ipos : Pos) (x : String) (e : Expr) (rest : List Spec)
+    (last : Option (Compile.CM Unit × Compile.VSum)) :
+    Compile.compileValueSpecs pos tVar ((iota, [(ipos, x)], [some e]) :: rest) last =
+      ((do compileExpr e; Compile.compileDefine pos x false tVar) >>= fun _ =>
+        Compile.compileValueSpecs pos tVar rest (some (compileExpr e, Compile.vsumOf e))) := by
+  conv => lhs; unfold Compile.compileValueSpecs
+  unfold Compile.compileValueIdents
+  unfold Compile.compileValueIdents
+  simp [Compile.compileValueIdent, tVar, tConst, Gen.tok_Var, Gen.tok_Const]
+
+theorem compileValueSpecs_var0 (pos : Pos) (iota : Option Nat) (ipos : Pos) (x : String) (rest : List Spec)
+    (last : Option (Compile.CM Unit × Compile.VSum)) :
+    Compile.compileValueSpecs pos tVar ((iota, [(ipos, x)], []) :: rest) last =
+      ((do compileExpr (.undef ipos); Compile.compileDefine pos x false tVar) >>= fun _ =>
+        Compile.compileValueSpecs pos tVar rest last) := by
+  rw [compileExpr_undef]
+  conv => lhs; unfold Compile.compileValueSpecs
+  unfold Compile.compileValueIdents
+  unfold Compile.compileIdentsNoValue
+  unfold Compile.compileIdentsNoValue
+  simp [Compile.compileValueIdent, tVar, tConst, Gen.tok_Var, Gen.tok_Const]
+/-- two compile actions in sequence against two reference computations in sequence, with fuels of their own -/
+theorem good_seqF (F : FloatOps) (B B1 B2 : List String) (n1 n2 : Nat) (act1 act2 : Compile.CM Unit)
+    (sem1 sem2 : Nat → Sem.Env → Sem.SM (Sem.Comp × Sem.Env)) (g1 g2 : Nat → Nat)
+    (h1 : GoodC F B B1 n1 act1 sem1) (h2 : GoodC F B1 B2 n2 act2 sem2) :
+    GoodC F B B2 (max n1 n2) (act1 >>= fun _ => act2) (fun fuel env => do
+      let (c, env') ← sem1 (g1 fuel) env
+      match c with
+      | .normal => sem2 (g2 fuel) env'
+      | c => pure (c, env')) :=
+  good_seq F B B1 B2 n1 n2 act1 act2 (fun fuel => sem1 (g1 fuel)) (fun fuel => sem2 (g2 fuel))
+    (fun cs cs' hc hcov hok => by
+      obtain ⟨a, b, c, d⟩ := h1 cs cs' hc hcov hok
+      exact ⟨a, b, c, fun fuel => d (g1 fuel)⟩)
+    (fun cs cs' hc hcov hok => by
+      obtain ⟨a, b, c, d⟩ := h2 cs cs' hc hcov hok
+      exact ⟨a, b, c, fun fuel => d (g2 fuel)⟩)
+
+theorem declRun_var1 (F : FloatOps) (x : String) (e : Expr) (iota : Option Nat) (ipos : Pos) (lastE : Option Expr)
+    {fuel : Nat} {env : Sem.Env} {ss : Sem.SemSt} {t : State} {c : Sem.Comp} {env' : Sem.Env} {ss' : Sem.SemSt} {t' : State}
+    (hsem : exec ((Sem.execValueSpecs F fuel env tVar [(iota, [(ipos, x)], [some e])] lastE).run ss) t =
+      (.ok ((c, env'), ss'), t')) :
+    DeclRun F x e env ss t c env' ss' t' := by
+  cases fuel with
+  | zero => rw [execValueSpecs_zero] at hsem; exact (sm_unsupported_ne hsem).elim
+  | succ fuel =>
+    rw [execValueSpecs_cons] at hsem
+    obtain ⟨⟨c1, env1, last1⟩, ss1, t1, hid, hsem⟩ := sm_bind_inv hsem
+    cases fuel with
+    | zero => rw [execIdents_zero] at hid; exact (sm_unsupported_ne hid).elim
+    | succ fuel =>
+      rw [execIdents_var1] at hid
+      obtain ⟨envI, ss0, t0, hpure, hid⟩ := sm_bind_inv hid
+      obtain ⟨rfl, rfl, rfl⟩ := sm_pure_inv hpure
+      obtain ⟨rr, ss2, t2, hev, hid⟩ := sm_bind_inv hid
+      refine ⟨fuel, [] :: env, rr, ss2, t2, fun n => lookupEnv_nil_cons n env, hev, ?_⟩
+      cases rr with
+      | thr a =>
+        obtain ⟨hce, rfl, rfl⟩ := sm_pure_inv hid
+        simp only [Prod.mk.injEq] at hce
+        obtain ⟨rfl, rfl, rfl⟩ := hce
+        simp only at hsem
+        obtain ⟨hce, rfl, rfl⟩ := sm_pure_inv hsem
+        simp only [Prod.mk.injEq] at hce
+        exact ⟨hce.1.symm, hce.2.symm, rfl, rfl⟩
+      | val v =>
+        simp only at hid
+        obtain ⟨envd, ss3, t3, hdec, hid⟩ := sm_bind_inv hid
+        cases fuel with
+        | zero => rw [execIdents_zero] at hid; exact (sm_unsupported_ne hid).elim
+        | succ fuel =>
+          rw [execIdents_nil] at hid
+          obtain ⟨hce, rfl, rfl⟩ := sm_pure_inv hid
+          simp only [Prod.mk.injEq] at hce
+          obtain ⟨rfl, rfl, rfl⟩ := hce
+          simp only at hsem
+          rw [execValueSpecs_nil] at hsem
+          obtain ⟨hce, rfl, rfl⟩ := sm_pure_inv hsem
+          simp only [Prod.mk.injEq] at hce
+          obtain ⟨rfl, rfl⟩ := hce
+          exact ⟨rfl, hdec⟩
+
+theorem declRun_var0 (F : FloatOps) (x : String) (iota : Option Nat) (ipos : Pos) (lastE : Option Expr)
+    {fuel : Nat} {env : Sem.Env} {ss : Sem.SemSt} {t : State} {c : Sem.Comp} {env' : Sem.Env} {ss' : Sem.SemSt} {t' : State}
+    (hsem : exec ((Sem.execValueSpecs F fuel env tVar [(iota, [(ipos, x)], [])] lastE).run ss) t =
+      (.ok ((c, env'), ss'), t')) :
+    DeclRun F x (.undef ipos) env ss t c env' ss' t' := by
+  cases fuel with
+  | zero => rw [execValueSpecs_zero] at hsem; exact (sm_unsupported_ne hsem).elim
+  | succ fuel =>
+    rw [execValueSpecs_cons] at hsem
+    obtain ⟨⟨c1, env1, last1⟩, ss1, t1, hid, hsem⟩ := sm_bind_inv hsem
+    cases fuel with
+    | zero => rw [execIdents_zero] at hid; exact (sm_unsupported_ne hid).elim
+    | succ fuel =>
+      rw [execIdents_var0] at hid
+      obtain ⟨envI, ss0, t0, hpure, hid⟩ := sm_bind_inv hid
+      obtain ⟨rfl, rfl, rfl⟩ := sm_pure_inv hpure
+      obtain ⟨rr, ss2, t2, hev, hid⟩ := sm_bind_inv hid
+      refine ⟨fuel, [] :: env, rr, ss2, t2, fun n => lookupEnv_nil_cons n env, hev, ?_⟩
+      cases rr with
+      | thr a =>
+        obtain ⟨hce, rfl, rfl⟩ := sm_pure_inv hid
+        simp only [Prod.mk.injEq] at hce
+        obtain ⟨rfl, rfl, rfl⟩ := hce
+        simp only at hsem
+        obtain ⟨hce, rfl, rfl⟩ := sm_pure_inv hsem
+        simp only [Prod.mk.injEq] at hce
+        exact ⟨hce.1.symm, hce.2.symm, rfl, rfl⟩
+      | val v =>
+        simp only at hid
+        obtain ⟨envd, ss3, t3, hdec, hid⟩ := sm_bind_inv hid
+        cases fuel with
+        | zero => rw [execIdents_zero] at hid; exact (sm_unsupported_ne hid).elim
+        | succ fuel =>
+          rw [execIdents_nil] at hid
+          obtain ⟨hce, rfl, rfl⟩ := sm_pure_inv hid
+          simp only [Prod.mk.injEq] at hce
+          obtain ⟨rfl, rfl, rfl⟩ := hce
+          simp only at hsem
+          rw [execValueSpecs_nil] at hsem
+          obtain ⟨hce, rfl, rfl⟩ := sm_pure_inv hsem
+          simp only [Prod.mk.injEq] at hce
+          obtain ⟨rfl, rfl⟩ := hce
+          exact ⟨rfl, hdec⟩
+
+/-- what `execIdents` hands on as `last` after one identifier with a value / without a value -/
+theorem execIdents_last1 (F : FloatOps) {f : Nat} {env : Sem.Env} {iota : Option Nat} {ipos : Pos} {x : String} {e : Expr}
+    {lastE : Option Expr} {ss ss1 : Sem.SemSt} {t t1 : State} {env1 : Sem.Env} {last1 : Option Expr}
+    (hid : exec ((Sem.execIdents F f env tVar iota [(ipos, x)] [some e] lastE).run ss) t =
+      (.ok ((.normal, env1, last1), ss1), t1)) : last1 = some e ∧ 2 ≤ f := by
+  cases f with
+  | zero => rw [execIdents_zero] at hid; exact (sm_unsupported_ne hid).elim
+  | succ f =>
+    rw [execIdents_var1] at hid
+    obtain ⟨envI, ss0, t0, hpure, hid⟩ := sm_bind_inv hid
+    obtain ⟨rr, ss2, t2, hev, hid⟩ := sm_bind_inv hid
+    cases rr with
+    | thr a =>
+      obtain ⟨hce, _, _⟩ := sm_pure_inv hid
+      simp only [Prod.mk.injEq] at hce
+      cases hce.1
+    | val v =>
+      simp only at hid
+      obtain ⟨envd, ss3, t3, hdec, hid⟩ := sm_bind_inv hid
+      cases f with
+      | zero => rw [execIdents_zero] at hid; exact (sm_unsupported_ne hid).elim
+      | succ f =>
+        rw [execIdents_nil] at hid
+        obtain ⟨hce, _, _⟩ := sm_pure_inv hid
+        simp only [Prod.mk.injEq] at hce
+        exact ⟨hce.2.2.symm, by omega⟩
+
+theorem execIdents_last0 (F : FloatOps) {f : Nat} {env : Sem.Env} {iota : Option Nat} {ipos : Pos} {x : String}
+    {lastE : Option Expr} {ss ss1 : Sem.SemSt} {t t1 : State} {env1 : Sem.Env} {last1 : Option Expr}
+    (hid : exec ((Sem.execIdents F f env tVar iota [(ipos, x)] [] lastE).run ss) t =
+      (.ok ((.normal, env1, last1), ss1), t1)) : last1 = lastE ∧ 2 ≤ f := by
+  cases f with
+  | zero => rw [execIdents_zero] at hid; exact (sm_unsupported_ne hid).elim
+  | succ f =>
+    rw [execIdents_var0] at hid
+    obtain ⟨envI, ss0, t0, hpure, hid⟩ := sm_bind_inv hid
+    obtain ⟨rr, ss2, t2, hev, hid⟩ := sm_bind_inv hid
+    cases rr with
+    | thr a =>
+      obtain ⟨hce, _, _⟩ := sm_pure_inv hid
+      simp only [Prod.mk.injEq] at hce
+      cases hce.1
+    | val v =>
+      simp only at hid
+      obtain ⟨envd, ss3, t3, hdec, hid⟩ := sm_bind_inv hid
+      cases f with
+      | zero => rw [execIdents_zero] at hid; exact (sm_unsupported_ne hid).elim
+      | succ f =>
+        rw [execIdents_nil] at hid
+        obtain ⟨hce, _, _⟩ := sm_pure_inv hid
+        simp only [Prod.mk.injEq] at hce
+        exact ⟨hce.2.2.symm, by omega⟩
+
+/-- the first specification alone, then the others: a run of the whole group is such a run -/
+theorem specs_split (F : FloatOps) (sp : Spec) (rest : List Spec) (lastE lastE2 : Option Expr)
+    (hlast : ∀ f env ss t env1 last1 ss1 t1, exec ((Sem.execIdents F f env tVar sp.1 sp.2.1 sp.2.2 lastE).run ss) t =
+      (.ok ((.normal, env1, last1), ss1), t1) → last1 = lastE2 ∧ 2 ≤ f)
+    (fuel : Nat) (env : Sem.Env) (ss : Sem.SemSt) (t : State) (r : Sem.Comp × Sem.Env) (ss' : Sem.SemSt) (t' : State)
+    (hsem : exec ((Sem.execValueSpecs F fuel env tVar (sp :: rest) lastE).run ss) t = (.ok (r, ss'), t')) :
+    ∃ fuel', exec ((do
+      let (c, env') ← Sem.execValueSpecs F (fuel' + 1) env tVar [sp] lastE
+      match c with
+      | .normal => Sem.execValueSpecs F fuel' env' tVar rest lastE2
+      | c => pure (c, env') : Sem.SM (Sem.Comp × Sem.Env)).run ss) t = (.ok (r, ss'), t') := by
+  obtain ⟨iota, ids, vals⟩ := sp
+  cases fuel with
+  | zero => rw [execValueSpecs_zero] at hsem; exact (sm_unsupported_ne hsem).elim
+  | succ f =>
+    rw [execValueSpecs_cons] at hsem
+    obtain ⟨⟨c1, env1, last1⟩, ss1, t1, hid, hsem⟩ := sm_bind_inv hsem
+    refine ⟨f, ?_⟩
+    have h1 : exec ((Sem.execValueSpecs F (f + 1) env tVar [(iota, ids, vals)] lastE).run ss) t =
+        (.ok ((c1, env1), ss1), t1) := by
+      rw [execValueSpecs_cons, sm_bind_run hid]
+      cases c1 with
+      | normal =>
+        simp only
+        obtain ⟨_, hf⟩ := hlast f env ss t env1 last1 ss1 t1 hid
+        obtain ⟨g, rfl⟩ : ∃ g, f = g + 1 := ⟨f - 1, by omega⟩
+        rw [execValueSpecs_nil]
+        exact sm_pure_run _ _ _
+      | brk => exact sm_pure_run _ _ _
+      | cont => exact sm_pure_run _ _ _
+      | ret v => exact sm_pure_run _ _ _
+      | thr a => exact sm_pure_run _ _ _
+    rw [sm_bind_run h1]
+    cases c1 with
+    | normal =>
+      simp only at hsem ⊢
+      obtain ⟨hl, _⟩ := hlast f env ss t env1 last1 ss1 t1 hid
+      rw [← hl]; exact hsem
+    | brk => exact hsem
+    | cont => exact hsem
+    | ret v => exact hsem
+    | thr a => exact hsem
+
+theorem good_specs (F : FloatOps) (pos : Pos) : ∀ (specs : List Spec) (B : List String), specsF B specs = true →
+    ∀ (last : Option (Compile.CM Unit × Compile.VSum)) (lastE : Option Expr),
+    GoodC F B (defsSpecs B specs) (needSpecs specs) (Compile.compileValueSpecs pos tVar specs last)
+      (fun fuel env => Sem.execValueSpecs F fuel env tVar specs lastE)
+  | [], B, _, last, lastE => by
+    rw [compileValueSpecs_nil]
+    refine (good_skip F B _ ?_).toC
+    intro fuel env ss t c env' ss' t' hsem
+    cases fuel with
+    | zero => rw [execValueSpecs_zero] at hsem; exact (sm_unsupported_ne hsem).elim
+    | succ fuel =>
+      rw [execValueSpecs_nil] at hsem
+      obtain ⟨hce, rfl, rfl⟩ := sm_pure_inv hsem
+      simp only [Prod.mk.injEq] at hce
+      exact ⟨hce.1.symm, hce.2.symm, rfl, rfl⟩
+  | sp :: rest, B, h, last, lastE => by
+    have h' : specF B sp = true ∧ specsF (defsSpec B sp) rest = true := by
+      have : specsF B (sp :: rest) = (specF B sp && specsF (defsSpec B sp) rest) := rfl
+      rw [this, Bool.and_eq_true] at h; exact h
+    rcases specF_inv h'.1 with ⟨iota, ipos, x, e, rfl, hF, hx⟩ | ⟨iota, ipos, x, rfl, hx⟩
+    · rw [compileValueSpecs_var1]
+      have ih := good_specs F pos rest (x :: B) h'.2 (some (compileExpr e, Compile.vsumOf e)) (some e)
+      have h1 : GoodC F B (x :: B) (need e + 1) (do compileExpr e; Compile.compileDefine pos x false tVar)
+          (fun fuel env => Sem.execValueSpecs F fuel env tVar [(iota, [(ipos, x)], [some e])] lastE) :=
+        good_defineCore F B pos x e hF hx _ (fun fuel env ss t c env' ss' t' h => declRun_var1 F x e iota ipos lastE h)
+      have hs := good_seqF F B (x :: B) _ _ _ _ _ _ _ (· + 1) id h1 ih
+      refine hs.resem ?_
+      intro fuel env ss t r ss' t' hsem
+      exact specs_split F _ rest lastE (some e) (fun f env ss t env1 last1 ss1 t1 h => execIdents_last1 F h)
+        fuel env ss t r ss' t' hsem
+    · rw [compileValueSpecs_var0]
+      have ih := good_specs F pos rest (x :: B) h'.2 last lastE
+      have h1 : GoodC F B (x :: B) 2 (do compileExpr (.undef ipos); Compile.compileDefine pos x false tVar)
+          (fun fuel env => Sem.execValueSpecs F fuel env tVar [(iota, [(ipos, x)], [])] lastE) :=
+        good_defineCore F B pos x (.undef ipos) rfl hx _
+          (fun fuel env ss t c env' ss' t' h => declRun_var0 F x iota ipos lastE h)
+      have hs := good_seqF F B (x :: B) _ _ _ _ _ _ _ (· + 1) id h1 ih
+      refine hs.resem ?_
+      intro fuel env ss t r ss' t' hsem
+      exact specs_split F _ rest lastE lastE (fun f env ss t env1 last1 ss1 t1 h => execIdents_last0 F h)
+        fuel env ss t r ss' t' hsem
+
+theorem compileStmt_varGroup (pos : Pos) (sp : Spec) (rest : List Spec) :
+    compileStmt (.declValue pos tVar (sp :: rest)) = Compile.compileValueSpecs pos tVar (sp :: rest) none := by
+  rw [Compile.compileStmt_eq]
+  simp [tVar, tConst, Gen.tok_Var, Gen.tok_Const]
+
+theorem good_varGroup (F : FloatOps) (B : List String) (pos : Pos) (specs : List Spec) (hne : specs.isEmpty = false)
+    (h : specsF B specs = true) :
+    GoodC F B (defsSpecs B specs) (needSpecs specs) (compileStmt (.declValue pos tVar specs))
+      (fun fuel env => Sem.execStmt F fuel env (.declValue pos tVar specs)) := by
+  cases specs with
+  | nil => simp at hne
+  | cons sp rest =>
+    rw [compileStmt_varGroup]
+    refine (good_specs F pos (sp :: rest) B h none none).resem ?_
+    intro fuel env ss t r ss' t' hsem
+    cases fuel with
+    | zero => exact (execStmt_zero' hsem).elim
+    | succ fuel => rw [execStmt_var] at hsem; exact ⟨fuel, hsem⟩
+
 end UgoVerif.CompSim
